@@ -589,30 +589,32 @@ class Client(base_client.BaseClient):
         """This background task sends packages to the server as they are
         pushed to the send queue.
         """
-        while self.state == 'connected':
+        # this task serves the queue of the connection it was started for
+        queue = self.queue
+        while self.state == 'connected' and self.queue is queue:
             # to simplify the timeout handling, use the maximum of the
             # ping interval and ping timeout as timeout, with an extra 5
             # seconds grace period
             timeout = max(self.ping_interval, self.ping_timeout) + 5
             packets = None
             try:
-                packets = [self.queue.get(timeout=timeout)]
-            except self.queue.Empty:
+                packets = [queue.get(timeout=timeout)]
+            except queue.Empty:
                 self.logger.error('packet queue is empty, aborting')
                 break
             if packets == [None]:
-                self.queue.task_done()
+                queue.task_done()
                 packets = []
             else:
                 # never put more packets in one payload than a server accepts
                 while len(packets) < payload.Payload.max_decode_packets:
                     try:
-                        packets.append(self.queue.get(block=False))
-                    except self.queue.Empty:
+                        packets.append(queue.get(block=False))
+                    except queue.Empty:
                         break
                     if packets[-1] is None:
                         packets = packets[:-1]
-                        self.queue.task_done()
+                        queue.task_done()
                         break
             if not packets:
                 # empty packet list returned -> connection closed
@@ -624,7 +626,7 @@ class Client(base_client.BaseClient):
                     headers={'Content-Type': 'text/plain'},
                     timeout=self.request_timeout)
                 for pkt in packets:
-                    self.queue.task_done()
+                    queue.task_done()
                 if r is None or isinstance(r, str):
                     self.logger.warning(
                         r or 'Connection refused by the server, aborting')
@@ -643,7 +645,7 @@ class Client(base_client.BaseClient):
                             self.ws.send_binary(encoded_packet)
                         else:
                             self.ws.send(encoded_packet)
-                        self.queue.task_done()
+                        queue.task_done()
                 except (websocket.WebSocketConnectionClosedException,
                         BrokenPipeError, OSError):
                     self.logger.warning(
